@@ -105,6 +105,137 @@ def strip_ts(text):
     return re.sub(r"FILE_NAME\s*\(.*?\);", "FILE_NAME();", text, flags=re.S)
 
 
+def aval(v):
+    """abstract value of spec/Population.tla -> Part 21 text"""
+    k = v["k"]
+    if k == "tok":
+        return v["t"]
+    if k == "enum":
+        return "." + v["item"].upper() + "."
+    if k == "ref":
+        return "#%d" % v["id"]
+    if k == "typed":
+        return "%s(%s)" % (v["ty"].upper(), aval(v["v"]))
+    if k == "list":
+        return "(" + ",".join(aval(x) for x in v["items"]) + ")"
+    if k == "null":
+        return "$"
+    raise ValueError(v)
+
+
+def render_pop(schema_name, pop, variant, salt=0, header=None, reverse=False):
+    lines = ["#%d=%s(%s);" % (i["id"], i["ent"].upper(), ",".join(aval(p) for p in i["params"])) for i in pop]
+    if variant == "forward" or reverse:
+        lines.reverse()
+    body = "\n".join(lines) + "\n"
+    if variant in ("sepmix", "blankmix", "spaced", "comments", "lines"):
+        kind = {"sepmix": "comments", "comments": "comments"}.get(variant, "plain")
+        sp = seps.Spacer(kind, salt)
+        out = []
+        for _, t in p21.tokenize(body):
+            out.append(t)
+            out.append("\n" if t == ";" else sp() if variant in ("sepmix", "blankmix") or t in (",", "(", "=") else "")
+        body = "".join(out)
+    return "ISO-10303-21;\n" + header_text(header).replace("'RT'", "'%s'" % schema_name.upper()) + "DATA;\n" + body + "ENDSEC;\nEND-ISO-10303-21;\n"
+
+
+def family_phase(ctx, lines, meta, files):
+    """populations of spec/Population.tla for the schemas of spec/Schema.tla: generated library per schema, same
+    round-trip record as the model-schema phase (every instance compared)"""
+    from vf import express
+    from vf.common import sha
+    cases = []
+    g = tlc.run_tlc("Population_Gen", None, workers=4, timeout=900, on_case=cases.append,
+                    cfg_text="CONSTANTS Deep = %s Rounds = %d\nINIT Init\nNEXT Next\nINVARIANT Emit\n" % ("FALSE" if ctx.quick else "TRUE", 1 if ctx.quick else 5))
+    if g.rc != 0 or g.errors:
+        raise InfraError("Population_Gen failed: %s" % g.tail[-10:])
+    cases = [c for c in cases if c["conforming"]]
+    cases.sort(key=lambda c: (json.dumps(c["choice"], sort_keys=True), c["n"]))
+    byschema = {}
+    for c in cases:
+        byschema.setdefault(json.dumps(c["choice"], sort_keys=True), []).append(c)
+    keys = sorted(byschema)
+    if ctx.quick:
+        # one schema of every inheritance shape x type shape (the other choices rotate)
+        strata = {}
+        for k in keys:
+            ch = json.loads(k)
+            strata.setdefault((ch["inh"], ch["ts"]["k"], ch["ts"].get("of", "")), []).append(k)
+        keys = sorted(v[len(v) // 2] for v in strata.values())
+    wd = os.path.join(ctx.work, "f")
+    shutil.rmtree(wd, ignore_errors=True)
+    mkdir(wd)
+
+    def one(k):
+        cs = byschema[k]
+        txt = express.render(cs[0]["schema"])
+        tag = "c02_" + sha(txt)[:10]
+        try:
+            lib = build.schema_lib(tag, txt)
+            drv = build.link_driver("session_" + tag, [DRV], schema=lib)
+        except build.BuildFailure as ex:
+            return k, None, str(ex)[-600:]
+        scripts = []
+        for c in cs:
+            for vi, v in enumerate(VARIANTS if not ctx.quick else [VARIANTS[(c["n"] + len(k)) % len(VARIANTS)], "sepmix"]):
+                tag2 = "F%s_%d_%s" % (sha(k)[:8], c["n"], v)
+                f = os.path.join(wd, tag2 + ".p21")
+                text = render_pop(cs[0]["schema"]["name"], c["pop"], v, c["n"] * 7 + vi, None)
+                open(f, "w", newline="").write(text)
+                o1, o2 = os.path.join(wd, tag2 + "_o1.p21"), os.path.join(wd, tag2 + "_o2.p21")
+                scripts.append((tag2, ["new 0", "read " + f, "write " + o1, "new 0", "read " + o1, "write " + o2]))
+                meta[tag2] = ({"inst": {"kw": ["(schema %s)" % k[:60]]}, "dev": "", "family": True}, v, f, o1, o2)
+                files[tag2] = text
+        return k, sess.run_scripts(drv, scripts, mkdir(os.path.join(wd, "b" + sha(k)[:8])), timeout=600), ""
+    n = 0
+    with cf.ThreadPoolExecutor(max_workers=3) as ex:
+        for k, res, err in ex.map(one, keys):
+            if res is None:
+                ctx.violation("family-build|" + k, "generated library of a family schema does not build: " + err[-200:], {"choice": k, "error": err})
+                continue
+            for tag2, r in res.items():
+                n += 1
+                c, v, f, o1, o2 = meta[tag2]
+                ev = {"e": "RoundTrip", "tag": tag2, "sev": -9, "sameIds": False, "sameKeywords": False, "valuesSame": [False], "sameHeader": False,
+                      "secondIdentical": False, "why": ""}
+                rd = r[1] if len(r) > 1 else {}
+                if rd.get("cmd") == "read":
+                    ev["sev"] = rd["esev"]
+                    try:
+                        src = p21.parse(files[tag2])
+                        out = p21.parse(open(o1, errors="replace").read())
+                        ev["sameIds"] = [x["id"] for x in src["data"]] == [x["id"] for x in out["data"]]
+                        ev["sameHeader"] = same_header(src["header"], out["header"])
+                        om = {x["id"]: x for x in out["data"]}
+                        vs, kwok, why = [], True, []
+                        for si in src["data"]:
+                            oi = om.get(si["id"])
+                            if not oi:
+                                continue
+                            kwok = kwok and [p[0] for p in si["parts"]] == [p[0] for p in oi["parts"]]
+                            for (kw, ps), (_, ops) in zip(si["parts"], oi["parts"]):
+                                for j, a in enumerate(ps):
+                                    ok = j < len(ops) and same_value(a, ops[j])
+                                    vs.append(ok)
+                                    if not ok:
+                                        why.append("#%d %s[%d]: %s -> %s" % (si["id"], kw, j, p21.render_value(a), p21.render_value(ops[j]) if j < len(ops) else "missing"))
+                                if len(ops) != len(ps):
+                                    vs.append(False)
+                        ev["sameKeywords"] = kwok
+                        ev["valuesSame"] = vs or [True]
+                        ev["why"] = "; ".join(why)[:300]
+                        t1 = strip_ts(open(o1, errors="replace").read())
+                        t2 = strip_ts(open(o2, errors="replace").read()) if os.path.exists(o2) else None
+                        ev["secondIdentical"] = t1 == t2
+                    except (p21.P21Error, OSError, IndexError) as ex2:
+                        ev["why"] = "output not a valid Part 21 file: %s" % str(ex2)[:160]
+                else:
+                    ev["why"] = "reader died: %s" % json.dumps(rd)[:200]
+                lines.append(json.dumps(ev))
+    shutil.rmtree(wd, ignore_errors=True)
+    return dict(family_schemas=len(keys), family_files=n, family_states=g.distinct)
+
+
 def run(ctx):
     s = build.schema_lib("rt", open(SCHEMA).read())
     drv = build.link_driver("session_rt", [DRV], schema=s)
@@ -177,6 +308,7 @@ def run(ctx):
             ev["why"] = "reader died: %s" % json.dumps(rd)[:200]
         lines.append(json.dumps(ev))
         tags.append(tag)
+    fam = family_phase(ctx, lines, meta, files)
     tp = os.path.join(wd, "trace.ndjson")
     open(tp, "w").write("\n".join(lines) + "\n")
     got = []
@@ -188,14 +320,14 @@ def run(ctx):
         c, v, f, o1, o2 = meta[ev["tag"]]
         clause = "read-error" if ev["sev"] < 2 else "ids" if not ev["sameIds"] else "keywords" if not ev["sameKeywords"] else \
             "values" if not all(ev["valuesSame"]) else "header" if not ev["sameHeader"] else "second-round-trip"
-        inst = render(c["inst"], "compact").split("\n")[-4]
+        inst = c["inst"]["kw"][0] if c.get("family") else render(c["inst"], "compact").split("\n")[-4]
         key = "dev:" + c["dev"] if c.get("dev") else "%s|%s|%s|%s" % (clause, "+".join(c["inst"]["kw"]), v if clause in ("read-error",) else "-", ev["why"][:80])
         ctx.violation(key,
                       "%s (%s spelling): %s :: severity %s; %s" % (clause, v, inst[:160], ev["sev"], ev["why"][:200]),
                       {"instance": c["inst"], "variant": v, "file": files[ev["tag"]], "event": ev})
     shutil.rmtree(wd, ignore_errors=True)
     cov = {"states": g.distinct, "transitions": g.generated, "traces_validated_against_impl": len(lines), "exhaustive": False,
-           "instances": len(cases), "files": len(lines), "disagreeing": len(got),
+           "instances": len(cases), "files": len(lines), "disagreeing": len(got), "generated_schema_family": fam,
            "samples": [json.loads(lines[0]), {"file": render(cases[0]["inst"], "comments")}],
            "evaluations": len(lines), "distinct_nontrivial": len(lines),
            "rule": "entity shapes x rounds walking every literal-form pool x token spellings; each file distinct"}
